@@ -14,11 +14,11 @@ EXPLANATION = ('Noninterference proof by abstract interpretation: each function 
                'arguments, panic conditions, values passed to opaque callees) is an over-approximation, and it is '
                'disjoint from the hidden-lane atoms.  Holds for all inputs under the trusted intrinsic table.')
 
-CONFIGS_QUICK = ['sse2', 'sse2-fma', 'coresimd']
-CONFIGS_THOROUGH = ['sse2', 'coresimd', 'neon', 'wasm32', 'sse2-fma']
+CONFIGS_QUICK = ['sse2', 'sse2-fma', 'sse41', 'coresimd', 'neon', 'wasm32']
+CONFIGS_THOROUGH = ['sse2', 'sse2-fma', 'sse41', 'sse2-dbg', 'coresimd', 'neon', 'wasm32']
 
 # measured when the rule was armed (sse2: 1170 instances); see DESIGN 4/C08
-FLOOR = {'sse2': 420, 'coresimd': 420, 'neon': 420, 'wasm32': 420, 'sse2-fma': 420}
+FLOOR = {'sse2': 420, 'coresimd': 420, 'neon': 420, 'wasm32': 420, 'sse2-fma': 420, 'sse41': 420, 'sse2-dbg': 420}
 
 
 def raw_register_from(F, it):
